@@ -213,6 +213,14 @@ impl<'a> Interp<'a> {
                 let r = &self.recvs[*id];
                 if r.from_none {
                     Some(self.from_none_value(r))
+                } else if let (Shape::Newtype(_), Some(f)) = (&r.shape, r.newtype_field()) {
+                    // the only field's own default is what the newtype holds when nothing was written, as
+                    // for a named field and for the field of a newtype variant
+                    match (f.skip, f.default) {
+                        (false, Def::Trait) => Some(newtype_value(r, zero(self.recvs, &f.ty))),
+                        (false, Def::Func) => Some(newtype_value(r, field_sentinel(self.recvs, &f, Tag::FieldDefault, r.id))),
+                        _ => None,
+                    }
                 } else {
                     None
                 }
